@@ -1598,6 +1598,10 @@ def stale_error_vs_successor_case(run, rng, pv, idx):
                  handle_exception=rec.handle_exception,
                  handle_exit=rec.handle_exit)
         conn.vf_log = rec.log
+        # (a pause between the socket shutdown and the close of the stream
+        # object inside disconnect(): the woken reader then meets the end of
+        # the stream, not a closed descriptor)
+        conn.vf_close_delay = 0.05
         H.next_mode = 'status-silent'
         conn.connect()
         if not pc.wait_for(lambda: H.ios and getattr(H.ios[0], 'phase', '')
